@@ -20,7 +20,7 @@ use mls_rs_core::time::MlsTime;
 use mls_rs_crypto_hpke::dhkem::DhKem;
 use mls_rs_crypto_hpke::hpke::Hpke;
 use mls_rs_crypto_traits::{AeadType, DhType, KdfType, KemResult, KemType, SamplingMethod};
-use mls_rs_identity_x509::{CertificateChain, DerCertificate, X509CredentialValidator};
+use mls_rs_identity_x509::{CertificateChain, DerCertificate, SubjectIdentityExtractor, X509CertificateReader, X509CredentialValidator};
 use std::collections::BTreeMap;
 use std::sync::{Arc, Mutex};
 
@@ -996,6 +996,781 @@ fn x509(rng: &mut Rng, qa: &mut QA, st: &mut St, thorough: bool) {
     }
 }
 
+// ---------------------------------------------------------------------------------------------------------------------
+// (4) directed side-by-side cases from the provider code audit.  No `Rng`: fixed inputs, so the classes that fire do not
+//     depend on the seed (the only random source is `kem_generate` itself).  Every case has its own class `<area>/<what>`
+//     (= its cover key in `kinds`); the per-provider verdicts are counted in `outcomes` as `<class>:<provider>:<verdict>+…`.
+//     Every provider call runs inside `catch_unwind`.
+
+/// one provider's answer: `v` is what is compared (`ok`, `ok:<hex>`, `err`, `panic`), `note` is shown only
+struct Ans {
+    who: &'static str,
+    v: String,
+    note: String,
+}
+
+fn short<E: std::fmt::Debug>(e: &E) -> String {
+    // innermost error: the wrappers (`HpkeError(KemError(AnyError(DhError(…`) carry no information
+    let mut s: String = format!("{e:?}").chars().filter(|c| *c != '\n' && *c != '[' && *c != ']' && *c != '"' && *c != '\\').collect();
+    for w in ["AnyErr(", "AnyError(", "HpkeError(", "KemError(", "DhError(", "EcError(", "EcdhKemError(", "OpensslError(", "IdentityExtractorError(", "X509ReaderError("] {
+        s = s.replace(w, "");
+    }
+    let s = s.trim_end_matches(')');
+    s.chars().take(80).collect()
+}
+
+/// run a provider call, panics caught: `Err(("err" | "panic", detail))`
+fn guard<T, E: std::fmt::Debug>(f: impl FnOnce() -> Result<T, E>) -> Result<T, (&'static str, String)> {
+    match std::panic::catch_unwind(std::panic::AssertUnwindSafe(f)) {
+        Ok(Ok(v)) => Ok(v),
+        Ok(Err(e)) => Err(("err", short(&e))),
+        Err(p) => Err(("panic", p.downcast_ref::<String>().cloned().or_else(|| p.downcast_ref::<&str>().map(|s| s.to_string())).unwrap_or_default().chars().take(70).collect())),
+    }
+}
+
+fn ans<T>(who: &'static str, r: &Result<T, (&'static str, String)>) -> Ans {
+    match r {
+        Ok(_) => Ans { who, v: "ok".into(), note: String::new() },
+        Err((k, d)) => Ans { who, v: k.to_string(), note: d.clone() },
+    }
+}
+
+fn ans_bytes(who: &'static str, r: &Result<Vec<u8>, (&'static str, String)>) -> Ans {
+    match r {
+        Ok(b) => Ans { who, v: format!("ok:{}", hex(b)), note: String::new() },
+        Err((k, d)) => Ans { who, v: k.to_string(), note: d.clone() },
+    }
+}
+
+fn verdict_word(v: &str) -> &str {
+    v.split(':').next().unwrap_or(v)
+}
+
+/// "accepted by a, b; refused by c" style summary of who did what
+fn who_did_what(answers: &[Ans]) -> String {
+    let mut groups: BTreeMap<String, Vec<&str>> = BTreeMap::new();
+    for a in answers {
+        let shown = if a.v.len() > 44 { format!("{}…", &a.v[..44]) } else { a.v.clone() };
+        groups.entry(if a.note.is_empty() { shown } else { format!("{shown} ({})", a.note) }).or_default().push(a.who);
+    }
+    groups.iter().map(|(v, w)| format!("{} -> {v}", w.join("+"))).collect::<Vec<_>>().join("; ")
+}
+
+/// cover key + outcome pattern for one case; a failure line of class `class` when the providers differ or one panics.
+/// Returns whether a line was written.
+fn side(st: &mut St, class: &str, suite: u16, desc: &str, answers: &[Ans]) -> bool {
+    st.kind(class);
+    let pat: Vec<String> = answers.iter().map(|a| format!("{}:{}", a.who, verdict_word(&a.v))).collect();
+    *st.outcomes.entry(format!("{class}:{}", pat.join("+"))).or_default() += 1;
+    let first = &answers[0].v;
+    if answers.iter().any(|a| &a.v != first || a.v == "panic") {
+        let sx = if suite == 0 { String::new() } else { format!("suite {suite}: ") };
+        st.fail(format!("[{class}] {sx}{desc}: {}", who_did_what(answers)));
+        true
+    } else {
+        false
+    }
+}
+
+fn note(st: &mut St, key: String) {
+    *st.outcomes.entry(key).or_default() += 1;
+}
+
+const AUDIT_IKM: &[u8] = b"c14 audit: fixed input keying material for kem_derive, 64 bytes..";
+
+#[derive(Clone)]
+struct CsAead {
+    cs: AnyCs,
+    id: u16,
+}
+impl AeadType for CsAead {
+    type Error = AnyErr;
+    fn aead_id(&self) -> u16 {
+        self.id
+    }
+    fn seal<'a>(&self, key: &[u8], data: &[u8], aad: Option<&'a [u8]>, nonce: &[u8]) -> Result<Vec<u8>, AnyErr> {
+        self.cs.aead_seal(key, data, aad, nonce)
+    }
+    fn open<'a>(&self, key: &[u8], ct: &[u8], aad: Option<&'a [u8]>, nonce: &[u8]) -> Result<Vec<u8>, AnyErr> {
+        self.cs.aead_open(key, ct, aad, nonce).map(|z| z.to_vec())
+    }
+    fn key_size(&self) -> usize {
+        self.cs.aead_key_size()
+    }
+    fn nonce_size(&self) -> usize {
+        self.cs.aead_nonce_size()
+    }
+}
+
+/// RFC 9180 over `cs`'s KDF and AEAD with a DH that returns `dh` and whose ephemeral public key (`enc`) is `enc`: what any
+/// outsider can compute when the DH output is a public constant
+fn public_dh_hpke(cs: &AnyCs, suite: u16, dh: Vec<u8>, enc: Vec<u8>) -> Hpke<DhKem<FakeDh, CsKdf>, CsKdf, CsAead> {
+    let (kem_id, kdf_id, aead_id, n_secret, sk_size, method, mask) = suite_ids(suite);
+    let kdf = CsKdf { cs: cs.clone(), id: kdf_id };
+    let fdh = FakeDh { dh, method, mask, sk_size, reject: Default::default(), eph: (vec![1; sk_size], enc) };
+    Hpke::new(DhKem::new(fdh, kdf.clone(), kem_id, n_secret), kdf, Some(CsAead { cs: cs.clone(), id: aead_id }))
+}
+
+// ---- 1. special encodings of NIST public keys ------------------------------------------------------------------------------
+fn audit_nist_encodings(st: &mut St) {
+    for (suite, curve, n) in [(2u16, "p256", 32usize), (7, "p384", 48), (5, "p521", 66)] {
+        let ps = providers(suite);
+        if ps.len() < 2 {
+            continue;
+        }
+        let Ok((sk, pk)) = guard(|| ps[0].1.kem_derive(AUDIT_IKM)) else {
+            st.fail(format!("[kem-validate/{curve}-setup] suite {suite}: {} cannot derive the key pair of the case", ps[0].0));
+            continue;
+        };
+        let b = pk.to_vec();
+        if b.len() != 1 + 2 * n || b[0] != 4 {
+            st.fail(format!("[kem-validate/{curve}-setup] suite {suite}: derived public key is not 04‖X‖Y ({} bytes)", b.len()));
+            continue;
+        }
+        let (x, y) = (b[1..1 + n].to_vec(), b[1 + n..].to_vec());
+        let odd = y[n - 1] & 1;
+        let mut off = b.clone();
+        off[2 * n] ^= 1;
+        let encs: Vec<(String, Vec<u8>, &str)> = vec![
+            ("uncompressed".into(), b.clone(), "04‖X‖Y of a valid point (control)"),
+            ("infinity".into(), vec![0], "the point at infinity `00`"),
+            ("hybrid".into(), [vec![6 + odd], x.clone(), y.clone()].concat(), "hybrid form 06|07‖X‖Y of a valid point"),
+            ("hybrid-wrong-parity".into(), [vec![7 - odd], x.clone(), y.clone()].concat(), "hybrid form with the wrong parity octet"),
+            ("compact".into(), [vec![5], x.clone()].concat(), "`05‖X`"),
+            ("compressed".into(), [vec![2 + odd], x.clone()].concat(), "compressed form 02|03‖X of a valid point"),
+            ("off-curve".into(), off, "uncompressed point not on the curve (Y with the last bit flipped)"),
+            (format!("len-{}", 2 * n), [x.clone(), y.clone()].concat(), "X‖Y without the leading 04"),
+            (format!("len-{}", 2 * n + 2), [b.clone(), vec![0]].concat(), "04‖X‖Y‖00"),
+        ];
+        for (name, enc, what) in encs {
+            let key = HpkePublicKey::from(enc.clone());
+            let val: Vec<_> = ps.iter().map(|(p, c)| (*p, guard(|| c.kem_public_key_validate(&key)))).collect();
+            let seal: Vec<_> = ps.iter().map(|(p, c)| (*p, guard(|| c.hpke_seal(&key, b"info", Some(b"aad"), b"plaintext")))).collect();
+            let va: Vec<Ans> = val.iter().map(|(p, r)| ans(p, r)).collect();
+            let sa: Vec<Ans> = seal.iter().map(|(p, r)| ans(p, r)).collect();
+            side(st, &format!("kem-validate/{curve}-{name}"), suite, &format!("kem_public_key_validate of {what} ({} bytes)", enc.len()), &va);
+            side(st, &format!("hpke-seal/{curve}-{name}"), suite, &format!("hpke_seal to {what} ({} bytes)", enc.len()), &sa);
+            // inside one provider: validate and seal give different verdicts (cover output)
+            for ((p, v), (_, s)) in val.iter().zip(seal.iter()) {
+                if v.is_ok() != s.is_ok() {
+                    note(st, format!("kem-validate/{curve}-{name}:{p}:validate-{}-but-seal-{}", if v.is_ok() { "ok" } else { "err" }, if s.is_ok() { "ok" } else { "err" }));
+                }
+            }
+            if ["compressed", "hybrid"].contains(&name.as_str()) {
+                // accepted by everybody: a second byte string for the same key (kem_context takes the bytes as given); not a
+                // divergence by itself
+                if val.iter().all(|(_, r)| r.is_ok()) {
+                    note(st, format!("kem-validate/{curve}-{name}:non-canonical-encoding-accepted-by-all"));
+                }
+            } else if name != "uncompressed" {
+                // not a public key at all: providers that agree on accepting it
+                st.kind(&format!("kem-validate/{curve}-{name}-accepted-by-all"));
+                if val.iter().all(|(_, r)| r.is_ok()) {
+                    st.fail(format!(
+                        "[kem-validate/{curve}-{name}-accepted-by-all] suite {suite}: every provider of the suite ({}) validates {what} ({} bytes) as a public key; hpke_seal to it: {}",
+                        ps.iter().map(|p| p.0).collect::<Vec<_>>().join("+"),
+                        enc.len(),
+                        who_did_what(&sa)
+                    ));
+                }
+            }
+            // what the holder of the key can do with a ciphertext sealed to the other encoding
+            for (p, r) in &seal {
+                if let (Ok(ct), true) = (r, name != "uncompressed") {
+                    for (o, oc) in &ps {
+                        let canon_pk = guard(|| oc.hpke_open(ct, &sk, &pk, b"info", Some(b"aad"))).is_ok();
+                        let given_pk = guard(|| oc.hpke_open(ct, &sk, &key, b"info", Some(b"aad"))).is_ok();
+                        let _ = (p, o);
+                        note(st, format!("hpke-seal/{curve}-{name}:key-holder-opens-with-canonical-pk-{}:with-the-given-bytes-as-pk-{}", if canon_pk { "yes" } else { "no" }, if given_pk { "yes" } else { "no" }));
+                    }
+                }
+            }
+        }
+    }
+}
+
+// ---- 2. X25519 low-order and non-canonical public keys ----------------------------------------------------------------------
+fn audit_x25519(st: &mut St) {
+    let tail = |first: u8| {
+        let mut v = vec![0xffu8; 32];
+        v[0] = first;
+        v[31] = 0x7f;
+        v
+    };
+    let mut one = vec![0u8; 32];
+    one[0] = 1;
+    // (name, encoding, low order: the DH output is all-zero for every secret key)
+    let keys: Vec<(&str, Vec<u8>, bool, &str)> = vec![
+        ("zero", vec![0u8; 32], true, "u = 0 (order 4 point of the curve / twist)"),
+        ("one", one, true, "u = 1 (low order)"),
+        ("p-minus-1", tail(0xec), true, "u = p-1 (low order)"),
+        ("p", tail(0xed), true, "u = p (non-canonical 0)"),
+        ("p-plus-1", tail(0xee), true, "u = p+1 (non-canonical 1)"),
+        ("order8", crate::util::unhex("e0eb7a7c3b41b8ae1656e3faf19fc46ada098deb9c32b1fd866205165f49b800").unwrap(), true, "a point of order 8"),
+        ("noncanonical", tail(0xff), false, "u = 2^255-1 (non-canonical 18, not of low order)"),
+    ];
+    for suite in [1u16, 3] {
+        let ps = providers(suite);
+        if ps.len() < 2 {
+            continue;
+        }
+        let (info, aad, pt) = (b"info".as_slice(), b"aad".as_slice(), b"plaintext".as_slice());
+        for (name, enc, low, what) in &keys {
+            let key = HpkePublicKey::from(enc.clone());
+            let val: Vec<_> = ps.iter().map(|(p, c)| (*p, guard(|| c.kem_public_key_validate(&key)))).collect();
+            side(st, &format!("kem-validate/x25519-{name}"), suite, &format!("kem_public_key_validate of {what}"), &val.iter().map(|(p, r)| ans(p, r)).collect::<Vec<_>>());
+            // seal to that key
+            let seal: Vec<_> = ps.iter().map(|(p, c)| (*p, guard(|| c.hpke_seal(&key, info, Some(aad), pt)))).collect();
+            let mut sa: Vec<Ans> = seal.iter().map(|(p, r)| ans(p, r)).collect();
+            let mut zero_dh: Vec<&str> = vec![];
+            for ((p, r), a) in seal.iter().zip(sa.iter_mut()) {
+                if let (Ok(ct), true) = (r, *low) {
+                    // the ciphertext opens for anybody who assumes DH = 0…0 (no secret key involved)
+                    let h = public_dh_hpke(&ps[0].1, suite, vec![0; 32], vec![]);
+                    let public = guard(|| h.open(ct, &HpkeSecretKey::from(vec![1u8; 32]), &key, info, None, Some(aad))).map(|z| z.to_vec()).ok() == Some(pt.to_vec());
+                    a.note = format!("ciphertext opens with the public all-zero DH value: {}", if public { "yes" } else { "no" });
+                    if public {
+                        zero_dh.push(*p);
+                    }
+                }
+            }
+            let differ = side(st, &format!("hpke-seal/x25519-{name}"), suite, &format!("hpke_seal to {what}"), &sa);
+            if *low {
+                // providers that agree on sealing to it (a disagreement is reported above, with the same note)
+                st.kind(&format!("hpke-seal/x25519-{name}-zero-dh"));
+                if !zero_dh.is_empty() && !differ {
+                    st.fail(format!(
+                        "[hpke-seal/x25519-{name}-zero-dh] suite {suite}: hpke_seal to {what} succeeds on {} with the all-zero DH output (RFC 9180 7.1.4 requires abort); refused by {}",
+                        zero_dh.join("+"),
+                        ps.iter().map(|p| p.0).filter(|p| !zero_dh.contains(p)).collect::<Vec<_>>().join("+")
+                    ));
+                }
+            }
+            // open a ciphertext whose `enc` is that value
+            if *low {
+                let mut oa: Vec<Ans> = vec![];
+                let mut acc: Vec<&str> = vec![];
+                for (p, c) in &ps {
+                    let r = guard(|| c.kem_derive(AUDIT_IKM)).and_then(|(sk, pk)| {
+                        // forged by an outsider: key schedule from DH = 0…0, enc = the low order point
+                        let h = public_dh_hpke(&ps[0].1, suite, vec![0; 32], enc.clone());
+                        let ct = guard(|| h.seal(&pk, info, None, Some(aad), pt))?;
+                        if ct.kem_output != *enc {
+                            return Err(("err", "forgery construction failed".to_string()));
+                        }
+                        guard(|| c.hpke_open(&ct, &sk, &pk, info, Some(aad))).map(|z| z.to_vec())
+                    });
+                    let mut a = ans(p, &r);
+                    if let Ok(o) = &r {
+                        a.note = if o == pt { "the outsider's plaintext".into() } else { "another plaintext".into() };
+                        acc.push(*p);
+                    }
+                    oa.push(a);
+                }
+                let differ = side(st, &format!("hpke-open/x25519-{name}"), suite, &format!("hpke_open of a ciphertext forged without any secret key (DH output 0…0), enc = {what}"), &oa);
+                st.kind(&format!("hpke-open/x25519-{name}-zero-dh"));
+                if !acc.is_empty() && !differ {
+                    st.fail(format!(
+                        "[hpke-open/x25519-{name}-zero-dh] suite {suite}: hpke_open accepts enc = {what} on {} (all-zero DH output, RFC 9180 7.1.4 requires abort); refused by {}",
+                        acc.join("+"),
+                        ps.iter().map(|p| p.0).filter(|p| !acc.contains(p)).collect::<Vec<_>>().join("+")
+                    ));
+                }
+            } else {
+                // a random enc that is a non-canonical encoding: same verdict (nobody can make a valid ciphertext for it)
+                let oa: Vec<Ans> = ps
+                    .iter()
+                    .map(|(p, c)| {
+                        let r = guard(|| c.kem_derive(AUDIT_IKM)).and_then(|(sk, pk)| guard(|| c.hpke_setup_r(enc, &sk, &pk, info)).map(|_| ()));
+                        ans(p, &r)
+                    })
+                    .collect();
+                side(st, &format!("hpke-open/x25519-{name}"), suite, &format!("hpke_setup_r with enc = {what}"), &oa);
+            }
+        }
+    }
+}
+
+// ---- 3. kem_generate: format of the secret key, use of a generated key by the other providers ----------------------------------
+fn dh_to_public(provider: &str, suite: u16, sk: &HpkeSecretKey) -> Result<Vec<u8>, (&'static str, String)> {
+    let cs = CipherSuite::from(suite);
+    match provider {
+        "rustcrypto" => guard(|| mls_rs_crypto_rustcrypto::ecdh::Ecdh::new(cs).ok_or_else(|| "unsupported".to_string()).and_then(|d| d.to_public(sk).map_err(|e| format!("{e:?}")))).map(|p| p.to_vec()),
+        "openssl" => guard(|| mls_rs_crypto_openssl::ecdh::Ecdh::new(cs).ok_or_else(|| "unsupported".to_string()).and_then(|d| d.to_public(sk).map_err(|e| format!("{e:?}")))).map(|p| p.to_vec()),
+        _ => guard(|| mls_rs_crypto_awslc::Ecdh::new(cs).ok_or_else(|| "unsupported".to_string()).and_then(|d| d.to_public(sk).map_err(|e| format!("{e:?}")))).map(|p| p.to_vec()),
+    }
+}
+
+fn audit_kem_generate(st: &mut St) {
+    for (suite, curve, n) in [(2u16, "p256", 32usize), (7, "p384", 48), (5, "p521", 66)] {
+        let ps = providers(suite);
+        if ps.len() < 2 {
+            continue;
+        }
+        // at least 200 generations; up to 3000 while a provider has shown one length only (a minimal big-endian encoding drops a
+        // leading zero byte with probability 1/256 (P-521: 1/2) per key)
+        let mut samples: Vec<(&'static str, HpkeSecretKey, HpkePublicKey)> = vec![];
+        let mut la: Vec<Ans> = vec![];
+        for (p, c) in &ps {
+            let mut hist: BTreeMap<usize, u64> = BTreeMap::new();
+            let (mut errs, mut lead0, mut odd) = (0u64, 0u32, 0u32);
+            for i in 0..3000u32 {
+                match guard(|| c.kem_generate()) {
+                    Ok((sk, pk)) => {
+                        let l = sk.len();
+                        *hist.entry(l).or_default() += 1;
+                        let take = if l != n {
+                            odd += 1;
+                            odd <= 4
+                        } else if sk[0] == 0 {
+                            lead0 += 1;
+                            lead0 <= 3
+                        } else {
+                            i < 4
+                        };
+                        if take {
+                            samples.push((*p, sk, pk));
+                        }
+                    }
+                    Err(_) => errs += 1,
+                }
+                if i >= 199 && hist.len() > 1 {
+                    break;
+                }
+            }
+            if errs > 0 {
+                st.fail(format!("[kem-generate/failed-{curve}] suite {suite}: {p}: {errs} generations failed"));
+            }
+            // the format, not the set of lengths seen (which depends on the keys drawn), is what is compared
+            let fmt = match (hist.keys().any(|l| *l < n), hist.keys().any(|l| *l > n)) {
+                (false, false) => "fixed-length",
+                (true, false) => "minimal-big-endian",
+                _ => "longer-than-nominal",
+            };
+            la.push(Ans { who: p, v: format!("ok:{fmt}"), note: format!("secret key lengths {}", hist.iter().map(|(l, k)| format!("{l} bytes x{k}")).collect::<Vec<_>>().join(", ")) });
+            note(st, format!("kem-generate/secret-length-{curve}:{p}:{fmt}"));
+        }
+        side(st, &format!("kem-generate/secret-length-{curve}"), suite, &format!("length of kem_generate secret keys (nominal {n} bytes)"), &la);
+        // every sampled key on every provider
+        let mut bad: BTreeMap<String, u64> = BTreeMap::new();
+        for (g, sk, pk) in &samples {
+            let sealed = ps.iter().find(|p| p.0 == *g).and_then(|(_, c)| guard(|| c.hpke_seal(pk, b"info", None, b"plaintext")).ok());
+            for (u, c) in &ps {
+                st.kind(&format!("kem-generate/cross-use-{curve}"));
+                let v = guard(|| c.kem_public_key_validate(pk));
+                let tp = dh_to_public(u, suite, sk);
+                let tp_s = match &tp {
+                    Ok(p2) if p2 == &pk.to_vec() => "same".to_string(),
+                    Ok(_) => "ANOTHER-PUBLIC-KEY".to_string(),
+                    Err((k, d)) => format!("{k} ({d})"),
+                };
+                let op = match &sealed {
+                    Some(ct) => match guard(|| c.hpke_open(ct, sk, pk, b"info", None)) {
+                        Ok(z) if z.to_vec() == b"plaintext" => "ok".to_string(),
+                        Ok(_) => "other-plaintext".to_string(),
+                        Err((k, d)) => format!("{k} ({d})"),
+                    },
+                    None => format!("{g}-cannot-seal-to-own-key"),
+                };
+                let good = v.is_ok() && tp_s == "same" && op == "ok";
+                note(st, format!("kem-generate/cross-use-{curve}:{}-byte-secret-of-{g}-on-{u}:{}", sk.len(), if good { "ok" } else { "refused" }));
+                if !good {
+                    *bad.entry(format!(
+                        "{}-byte secret generated by {g}{} used on {u}: validate(public)={} to_public(secret)={tp_s} hpke_open={op}",
+                        sk.len(),
+                        if sk.len() == n && sk[0] == 0 { " (leading 00)" } else { "" },
+                        match &v {
+                            Ok(_) => "ok".to_string(),
+                            Err((k, d)) => format!("{k} ({d})"),
+                        }
+                    ))
+                    .or_default() += 1;
+                }
+            }
+        }
+        if !bad.is_empty() {
+            st.fail(format!("[kem-generate/cross-use-{curve}] suite {suite}: {}", bad.iter().map(|(k, n)| format!("{k} x{n}")).collect::<Vec<_>>().join(" || ")));
+        }
+    }
+}
+
+// ---- 4. X.509: byte-patched certificates, crafted subjects through the readers --------------------------------------------------
+fn der_tlv(b: &[u8], pos: usize) -> Option<(u8, usize, usize)> {
+    let tag = *b.get(pos)?;
+    let l0 = *b.get(pos + 1)? as usize;
+    let (len, hdr) = if l0 < 0x80 {
+        (l0, 2)
+    } else {
+        let k = l0 & 0x7f;
+        if k == 0 || k > 4 {
+            return None;
+        }
+        let mut l = 0usize;
+        for i in 0..k {
+            l = (l << 8) | *b.get(pos + 2 + i)? as usize;
+        }
+        (l, 2 + k)
+    };
+    let s = pos + hdr;
+    let e = s.checked_add(len)?;
+    if e > b.len() {
+        return None;
+    }
+    Some((tag, s, e))
+}
+
+fn der_enc(tag: u8, content: &[u8]) -> Vec<u8> {
+    let mut out = vec![tag];
+    let l = content.len();
+    if l < 0x80 {
+        out.push(l as u8);
+    } else if l < 0x100 {
+        out.extend([0x81, l as u8]);
+    } else {
+        out.extend([0x82, (l >> 8) as u8, l as u8]);
+    }
+    out.extend_from_slice(content);
+    out
+}
+
+/// the TLVs inside `b` as (start, end) of the whole element
+fn der_children(b: &[u8]) -> Option<Vec<(usize, usize)>> {
+    let mut out = vec![];
+    let mut pos = 0;
+    while pos < b.len() {
+        let (_, _, e) = der_tlv(b, pos)?;
+        out.push((pos, e));
+        pos = e;
+    }
+    Some(out)
+}
+
+/// the certificate with another subject Name, signed again (ECDSA / SHA-256) by `key`
+fn resubject(cert: &[u8], subject: &[u8], key: &openssl::pkey::PKey<openssl::pkey::Private>) -> Option<Vec<u8>> {
+    let (_, s, e) = der_tlv(cert, 0)?;
+    let outer = &cert[s..e];
+    let kids = der_children(outer)?;
+    if kids.len() != 3 {
+        return None;
+    }
+    let tbs_full = &outer[kids[0].0..kids[0].1];
+    let (_, ts, te) = der_tlv(tbs_full, 0)?;
+    let tbs_c = &tbs_full[ts..te];
+    let tk = der_children(tbs_c)?;
+    let idx = if tbs_c[tk[0].0] == 0xa0 { 5 } else { 4 };
+    if tk.len() <= idx {
+        return None;
+    }
+    let mut c = vec![];
+    for (i, (a, b)) in tk.iter().enumerate() {
+        if i == idx {
+            c.extend_from_slice(subject);
+        } else {
+            c.extend_from_slice(&tbs_c[*a..*b]);
+        }
+    }
+    let tbs = der_enc(0x30, &c);
+    let mut signer = openssl::sign::Signer::new(openssl::hash::MessageDigest::sha256(), key).ok()?;
+    let sig = signer.sign_oneshot_to_vec(&tbs).ok()?;
+    let bits = [vec![0u8], sig].concat();
+    Some(der_enc(0x30, &[tbs, outer[kids[1].0..kids[1].1].to_vec(), der_enc(0x03, &bits)].concat()))
+}
+
+fn simple_verdicts(anchors: &[ACert], chain: &[ACert], time: Option<i64>) -> Vec<Ans> {
+    verdicts(anchors, chain, time)
+        .into_iter()
+        .map(|(who, v)| {
+            if v == "ok" || v == "panic" {
+                Ans { who, v, note: String::new() }
+            } else {
+                Ans { who, v: "err".into(), note: v.trim_start_matches("err:").to_string() }
+            }
+        })
+        .collect()
+}
+
+fn audit_x509(st: &mut St) {
+    let mut rng = Rng::new(0); // `Pki::key` does not draw from it
+    let base: i64 = 1_700_000_000;
+    let (nb, na, at) = (base, base + 1000, Some(base + 500));
+    let mut pki = Pki { keys: vec![], ed: false };
+    let (rk, ik, lk) = (pki.key(&mut rng), pki.key(&mut rng), pki.key(&mut rng));
+    let root = pki.cert(100, 100, rk, rk, nb, na, true, None, 0);
+    let inter = pki.cert(200, 100, ik, rk, nb, na, true, None, 1);
+    let leaf = pki.cert(300, 200, lk, ik, nb, na, false, None, 2);
+    let with = |c: &ACert, der: Vec<u8>| ACert { der, ..c.clone() };
+    // control: the unpatched chain
+    let control = simple_verdicts(&[root.clone()], &[leaf.clone(), inter.clone()], at);
+    let control_ok = control.iter().all(|a| a.v == "ok");
+    side(st, "x509/audit-control-chain", 0, "leaf, intermediate under the root, inside all validity periods", &control);
+    if !control_ok {
+        st.fail(format!("[x509/audit-control-chain] the unpatched chain of the directed cases is not accepted by all: {}", who_did_what(&control)));
+    }
+    // (a) outer signatureAlgorithm ecdsa-with-SHA256 -> ecdsa-with-SHA384, tbsCertificate.signature unchanged
+    let oid: &[u8] = &[0x06, 0x08, 0x2a, 0x86, 0x48, 0xce, 0x3d, 0x04, 0x03, 0x02];
+    let occ: Vec<usize> = (0..leaf.der.len().saturating_sub(oid.len())).filter(|i| &leaf.der[*i..*i + oid.len()] == oid).collect();
+    if occ.len() == 2 {
+        let mut d = leaf.der.clone();
+        d[occ[1] + oid.len() - 1] = 0x03;
+        let vs = simple_verdicts(&[root.clone()], &[with(&leaf, d), inter.clone()], at);
+        let all_ok = vs.iter().all(|a| a.v == "ok");
+        side(st, "x509/outer-sigalg-mismatch", 0, "leaf whose outer signatureAlgorithm says ecdsa-with-SHA384 while tbsCertificate.signature says ecdsa-with-SHA256 (RFC 5280 4.1.1.2: must be equal)", &vs);
+        st.kind("x509/outer-sigalg-mismatch-accepted-by-all");
+        if all_ok {
+            st.fail("[x509/outer-sigalg-mismatch-accepted-by-all] every validator accepts a leaf whose outer signatureAlgorithm differs from tbsCertificate.signature".to_string());
+        }
+    } else {
+        st.fail(format!("[x509/outer-sigalg-mismatch] case not built: {} occurrences of the ecdsa-with-SHA256 OID", occ.len()));
+    }
+    // (b) trailing bytes after the DER of one element
+    let junk = |c: &ACert| with(c, [c.der.clone(), vec![0xde, 0xad]].concat());
+    let cases: Vec<(&str, Vec<ACert>, Vec<ACert>, &str)> = vec![
+        ("x509/trailing-bytes-in-der", vec![root.clone()], vec![junk(&leaf), inter.clone()], "chain element 0 (leaf) is `certificate‖dead`"),
+        ("x509/trailing-bytes-in-der-intermediate", vec![root.clone()], vec![leaf.clone(), junk(&inter)], "chain element 1 (intermediate) is `certificate‖dead`"),
+        ("x509/trailing-bytes-in-der-anchor", vec![junk(&root)], vec![leaf.clone(), inter.clone()], "the trust anchor is `certificate‖dead`"),
+    ];
+    for (class, anchors, chain, what) in cases {
+        let vs = simple_verdicts(&anchors, &chain, at);
+        let all_ok = vs.iter().all(|a| a.v == "ok");
+        side(st, class, 0, what, &vs);
+        st.kind(&format!("{class}-accepted-by-all"));
+        if all_ok {
+            st.fail(format!("[{class}-accepted-by-all] every validator accepts: {what}"));
+        }
+    }
+    // (c) crafted subjects through the readers and SubjectIdentityExtractor
+    let cn_oid: &[u8] = &[0x06, 0x03, 0x55, 0x04, 0x03];
+    let o_oid: &[u8] = &[0x06, 0x03, 0x55, 0x04, 0x0a];
+    let atv = |oid: &[u8], tag: u8, v: &[u8]| der_enc(0x30, &[oid.to_vec(), der_enc(tag, v)].concat());
+    let rdn = |atvs: &[Vec<u8>]| der_enc(0x31, &atvs.concat());
+    let name = |rdns: &[Vec<u8>]| der_enc(0x30, &rdns.concat());
+    let bmp: Vec<u8> = "alice".bytes().flat_map(|b| [0u8, b]).collect();
+    let subjects: Vec<(&str, Vec<u8>, &str)> = vec![
+        ("control", name(&[rdn(&[atv(cn_oid, 0x0c, b"alice")])]), "subject CN=alice (UTF8String)"),
+        ("empty-first-rdn", crate::util::unhex("3010310031 0c300a06035504030c03616c69".replace(' ', "").as_str()).unwrap(), "subject whose first RDN is an empty SET, then CN=ali"),
+        ("multi-valued-rdn", name(&[rdn(&[atv(o_oid, 0x0c, b"o"), atv(cn_oid, 0x0c, b"alice")])]), "subject with one multi-valued RDN {O=o, CN=alice}"),
+        ("unknown-oid-before-cn", name(&[rdn(&[atv(&[0x06, 0x03, 0x2a, 0x03, 0x04], 0x0c, b"x")]), rdn(&[atv(cn_oid, 0x0c, b"alice")])]), "subject with an attribute of unknown type 1.2.3.4 before CN=alice"),
+        ("bmpstring-cn", name(&[rdn(&[atv(cn_oid, 0x1e, &bmp)])]), "subject CN=alice as BMPString"),
+    ];
+    let ikey = pki.keys[ik as usize].clone();
+    for (case, subject, what) in subjects {
+        let Some(der) = resubject(&leaf.der, &subject, &ikey) else {
+            st.fail(format!("[x509-reader/not-built-{case}] the certificate of the case could not be constructed"));
+            continue;
+        };
+        let cert = DerCertificate::from(der.clone());
+        let chain: CertificateChain = vec![cert.clone(), DerCertificate::from(inter.der.clone())].into();
+        type Triple = (Result<Vec<u8>, (&'static str, String)>, Result<Vec<u8>, (&'static str, String)>, Result<String, (&'static str, String)>);
+        fn read<R: X509CertificateReader + Clone>(r: R, cert: &DerCertificate, chain: &CertificateChain) -> Triple
+        where
+            R::Error: std::fmt::Debug,
+        {
+            (
+                guard(|| SubjectIdentityExtractor::new(0, r.clone()).identity(chain)),
+                guard(|| r.subject_bytes(cert)),
+                guard(|| r.subject_components(cert)).map(|c| format!("{c:?}")),
+            )
+        }
+        let rs: Vec<(&'static str, Triple)> = vec![
+            ("rustcrypto", read(mls_rs_crypto_rustcrypto::x509::X509Reader::new(), &cert, &chain)),
+            ("openssl", read(mls_rs_crypto_openssl::x509::X509Reader::new(), &cert, &chain)),
+            ("awslc", read(mls_rs_crypto_awslc::x509::CertificateParser::new(), &cert, &chain)),
+        ];
+        // panics: one class per provider
+        for (p, (id, sb, comps)) in &rs {
+            st.kind(&format!("x509-reader/panic-{p}-{case}"));
+            let which: Vec<&str> = [("identity", id.as_ref().err()), ("subject_bytes", sb.as_ref().err()), ("subject_components", comps.as_ref().err())]
+                .iter()
+                .filter(|(_, e)| e.map(|e| e.0 == "panic").unwrap_or(false))
+                .map(|(n, _)| *n)
+                .collect();
+            if !which.is_empty() {
+                let msg = [id.as_ref().err(), comps.as_ref().err(), sb.as_ref().err()].iter().flatten().find(|e| e.0 == "panic").map(|e| e.1.clone()).unwrap_or_default();
+                st.fail(format!("[x509-reader/panic-{p}-{case}] {p}'s X.509 reader panics in {} on a certificate with {what}: {msg}", which.join(", ")));
+            }
+        }
+        let ida: Vec<Ans> = rs
+            .iter()
+            .map(|(p, (id, _, _))| {
+                let mut a = ans_bytes(p, id);
+                if let Ok(b) = id {
+                    a.note = format!("{:?}", String::from_utf8_lossy(b));
+                }
+                a
+            })
+            .collect();
+        let id_differs = side(st, &format!("x509-reader/identity-differs-{case}"), 0, &format!("SubjectIdentityExtractor::identity of a leaf with {what}"), &ida);
+        let sba: Vec<Ans> = rs.iter().map(|(p, (_, sb, _))| ans_bytes(p, sb)).collect();
+        side(st, &format!("x509-reader/subject-bytes-differ-{case}"), 0, &format!("subject_bytes of a leaf with {what} (real subject {})", hex(&subject)), &sba);
+        let ca: Vec<Ans> = rs
+            .iter()
+            .map(|(p, (_, _, c))| match c {
+                Ok(s) => Ans { who: p, v: format!("ok:{s}"), note: String::new() },
+                Err((k, d)) => Ans { who: p, v: k.to_string(), note: d.clone() },
+            })
+            .collect();
+        if id_differs {
+            st.kind(&format!("x509-reader/components-differ-{case}"));
+            note(st, format!("x509-reader/components-differ-{case}:{}", ca.iter().map(|a| format!("{}:{}", a.who, verdict_word(&a.v))).collect::<Vec<_>>().join("+")));
+        } else {
+            side(st, &format!("x509-reader/components-differ-{case}"), 0, &format!("subject_components of a leaf with {what}"), &ca);
+        }
+        // the same (correctly signed) leaf through the validators
+        let vs = simple_verdicts(&[root.clone()], &[with(&leaf, der), inter.clone()], at);
+        side(st, &format!("x509/crafted-subject-{case}"), 0, &format!("validation of a correctly signed leaf with {what}"), &vs);
+    }
+}
+
+// ---- 5. AEAD open with wrong sizes, HPKE with empty inputs and PSK sizes ---------------------------------------------------------
+fn audit_aead(st: &mut St) {
+    for suite in 1u16..=7 {
+        let ps = providers(suite);
+        if ps.len() < 2 {
+            continue;
+        }
+        let (nk, nn) = (ps[0].1.aead_key_size(), ps[0].1.aead_nonce_size());
+        let key: Vec<u8> = (0..nk).map(|i| i as u8 + 1).collect();
+        let nonce: Vec<u8> = (0..nn).map(|i| 0xa0 + i as u8).collect();
+        let (pt, aad) = (b"c14 audit plaintext".to_vec(), b"aad".to_vec());
+        let Ok(ct) = guard(|| ps[0].1.aead_seal(&key, &pt, Some(&aad), &nonce)) else {
+            st.fail(format!("[aead-open/setup] suite {suite}: {} cannot seal", ps[0].0));
+            continue;
+        };
+        let other_size = if nk == 16 { 32 } else { 16 };
+        let stretch = |v: &[u8], l: usize| -> Vec<u8> { (0..l).map(|i| if i < v.len() { v[i] } else { i as u8 }).collect() };
+        // (what, key, nonce): parameters of a wrong size.  The ciphertext is the genuine one and, when a provider seals with the
+        // wrong-size parameter, also that provider's ciphertext.
+        let params: Vec<(&str, Vec<u8>, Vec<u8>)> = vec![
+            ("key-short", key[..nk - 1].to_vec(), nonce.clone()),
+            ("key-long", stretch(&key, nk + 1), nonce.clone()),
+            ("key-empty", vec![], nonce.clone()),
+            ("key-other-aes-size", stretch(&key, other_size), nonce.clone()),
+            ("nonce-short", key.clone(), nonce[..nn - 1].to_vec()),
+            ("nonce-long", key.clone(), stretch(&nonce, nn + 1)),
+            ("nonce-empty", key.clone(), vec![]),
+        ];
+        for (what, k2, n2) in params {
+            let mut cts: Vec<(String, Vec<u8>)> = vec![("the genuine ciphertext".into(), ct.clone())];
+            for (p, c) in &ps {
+                if let Ok(c2) = guard(|| c.aead_seal(&k2, &pt, Some(&aad), &n2)) {
+                    note(st, format!("aead-open/{what}:{p}-seals-with-this-size"));
+                    if !cts.iter().any(|x| x.1 == c2) {
+                        cts.push((format!("the ciphertext {p} seals with these sizes"), c2));
+                    }
+                }
+            }
+            for (origin, c2) in cts {
+                let a: Vec<Ans> = ps.iter().map(|(p, c)| ans_bytes(p, &guard(|| c.aead_open(&k2, &c2, Some(&aad), &n2)).map(|z| z.to_vec()))).collect();
+                side(st, &format!("aead-open/{what}"), suite, &format!("aead_open with key of {} bytes (Nk={nk}), nonce of {} bytes (Nn={nn}) on {origin}", k2.len(), n2.len()), &a);
+            }
+        }
+        let cuts: Vec<(&str, Vec<u8>)> = vec![
+            ("ct-empty", vec![]),
+            ("ct-shorter-than-tag", ct[..8].to_vec()),
+            ("ct-tag-minus-1", ct[ct.len() - 15..].to_vec()),
+            ("ct-only-tag", ct[ct.len() - 16..].to_vec()),
+        ];
+        for (what, c2) in cuts {
+            let a: Vec<Ans> = ps.iter().map(|(p, c)| ans_bytes(p, &guard(|| c.aead_open(&key, &c2, Some(&aad), &nonce)).map(|z| z.to_vec()))).collect();
+            side(st, &format!("aead-open/{what}"), suite, &format!("aead_open of a {}-byte ciphertext", c2.len()), &a);
+            st.kind(&format!("aead-open/{what}-accepted"));
+            if a.iter().all(|x| x.v.starts_with("ok")) {
+                st.fail(format!("[aead-open/{what}-accepted] suite {suite}: every provider opens a {}-byte ciphertext", c2.len()));
+            }
+        }
+        // empty aad and no aad are the same input
+        for (what, seal_aad, open_aad) in [("aad-none-sealed-empty-opened", None, Some(&[][..])), ("aad-empty-sealed-none-opened", Some(&[][..]), None)] {
+            for (sp, sc) in &ps {
+                let Ok(c2) = guard(|| sc.aead_seal(&key, &pt, seal_aad, &nonce)) else {
+                    st.kind(&format!("aead-open/{what}"));
+                    st.fail(format!("[aead-open/{what}] suite {suite}: {sp} cannot seal with aad {seal_aad:?}"));
+                    continue;
+                };
+                let a: Vec<Ans> = ps.iter().map(|(p, c)| ans_bytes(p, &guard(|| c.aead_open(&key, &c2, open_aad, &nonce)).map(|z| z.to_vec()))).collect();
+                side(st, &format!("aead-open/{what}"), suite, &format!("sealed by {sp} with aad {seal_aad:?}, opened with aad {open_aad:?}"), &a);
+            }
+        }
+    }
+}
+
+fn audit_hpke_inputs(st: &mut St) {
+    for suite in 1u16..=7 {
+        let ps = providers(suite);
+        if ps.len() < 2 {
+            continue;
+        }
+        let Ok((sk, pk)) = guard(|| ps[0].1.kem_derive(AUDIT_IKM)) else {
+            st.fail(format!("[hpke-psk/setup] suite {suite}: {} cannot derive a key pair", ps[0].0));
+            continue;
+        };
+        let pt = b"plaintext".to_vec();
+        let psk = |l: usize| -> Vec<u8> { (0..l).map(|i| 0x40 + i as u8).collect() };
+        // (what, info, aad at seal, aad at open, psk (value, id))
+        #[allow(clippy::type_complexity)]
+        let cases: Vec<(&str, Vec<u8>, Option<Vec<u8>>, Option<Vec<u8>>, Option<(Vec<u8>, Vec<u8>)>)> = vec![
+            ("base-empty-info", vec![], Some(b"aad".to_vec()), Some(b"aad".to_vec()), None),
+            ("base-empty-aad", b"info".to_vec(), Some(vec![]), Some(vec![]), None),
+            ("base-empty-aad-opened-with-none", b"info".to_vec(), Some(vec![]), None, None),
+            ("base-no-aad-opened-with-empty", b"info".to_vec(), None, Some(vec![]), None),
+            ("base-empty-info-and-aad", vec![], Some(vec![]), Some(vec![]), None),
+            ("empty-info", vec![], Some(b"aad".to_vec()), Some(b"aad".to_vec()), Some((psk(32), b"psk-id".to_vec()))),
+            ("empty-aad", b"info".to_vec(), Some(vec![]), Some(vec![]), Some((psk(32), b"psk-id".to_vec()))),
+            ("psk-len-31", b"info".to_vec(), None, None, Some((psk(31), b"psk-id".to_vec()))),
+            ("psk-len-32", b"info".to_vec(), None, None, Some((psk(32), b"psk-id".to_vec()))),
+            ("psk-len-33", b"info".to_vec(), None, None, Some((psk(33), b"psk-id".to_vec()))),
+            ("psk-len-64", b"info".to_vec(), None, None, Some((psk(64), b"psk-id".to_vec()))),
+            ("empty-psk-id", b"info".to_vec(), None, None, Some((psk(32), vec![]))),
+            ("empty-psk", b"info".to_vec(), None, None, Some((vec![], b"psk-id".to_vec()))),
+            ("empty-psk-and-id", b"info".to_vec(), None, None, Some((vec![], vec![]))),
+        ];
+        for (what, info, aad_s, aad_o, psk) in cases {
+            let class = format!("hpke-psk/{what}");
+            let seal = |c: &AnyCs| match &psk {
+                None => guard(|| c.hpke_seal(&pk, &info, aad_s.as_deref(), &pt)),
+                Some((v, i)) => guard(|| c.hpke_seal_psk(&pk, &info, aad_s.as_deref(), &pt, HpkePsk { id: i, value: v })),
+            };
+            let open = |c: &AnyCs, ct: &HpkeCiphertext| match &psk {
+                None => guard(|| c.hpke_open(ct, &sk, &pk, &info, aad_o.as_deref())),
+                Some((v, i)) => guard(|| c.hpke_open_psk(ct, &sk, &pk, &info, aad_o.as_deref(), HpkePsk { id: i, value: v })),
+            };
+            let sealed: Vec<_> = ps.iter().map(|(p, c)| (*p, seal(c))).collect();
+            let desc = format!(
+                "hpke_seal{} with info of {} bytes, aad {}{}",
+                if psk.is_some() { "_psk" } else { "" },
+                info.len(),
+                aad_s.as_ref().map(|a| format!("of {} bytes", a.len())).unwrap_or("None".into()),
+                psk.as_ref().map(|(v, i)| format!(", psk of {} bytes, psk id of {} bytes", v.len(), i.len())).unwrap_or_default()
+            );
+            side(st, &class, suite, &desc, &sealed.iter().map(|(p, r)| ans(p, r)).collect::<Vec<_>>());
+            // where accepted: every provider opens every provider's ciphertext
+            let mut refused: Vec<String> = vec![];
+            for (sp, r) in &sealed {
+                let Ok(ct) = r else { continue };
+                for (op, oc) in &ps {
+                    st.kind(&format!("{class}-cross-open"));
+                    match open(oc, ct) {
+                        Ok(z) if z.to_vec() == pt => {}
+                        Ok(_) => refused.push(format!("sealed by {sp}: {op} opens to another plaintext")),
+                        Err((k, d)) => refused.push(format!("sealed by {sp}: {op} -> {k} ({d})")),
+                    }
+                }
+            }
+            if !refused.is_empty() {
+                st.fail(format!("[{class}-cross-open] suite {suite}: {desc}, opened with aad {:?}: {}", aad_o.as_ref().map(|a| a.len()), refused.join("; ")));
+            }
+        }
+    }
+}
+
+fn audit(st: &mut St) {
+    audit_nist_encodings(st);
+    audit_x25519(st);
+    audit_kem_generate(st);
+    audit_x509(st);
+    audit_aead(st);
+    audit_hpke_inputs(st);
+}
+
 pub fn run(o: &Opts) -> i32 {
     crate::util::quiet_panics();
     let dir = o.str("out", "/verif/work/c14");
@@ -1016,6 +1791,9 @@ pub fn run(o: &Opts) -> i32 {
         x509(&mut rng, &mut qx, &mut st, o.thorough());
     }
     let rows_x = qx.finish();
+    if part == "all" || part == "audit" {
+        audit(&mut st);
+    }
     println!("rows {}", rows_a + rows_x);
     println!("cases {}", st.cases);
     println!("kinds {}", st.kinds.iter().map(|(k, v)| format!("{k}={v}")).collect::<Vec<_>>().join(","));
